@@ -139,3 +139,34 @@ package calcium
 //@             && strategyInfos[k].Count == deployStatusMap[strategyInfos[k].Nodename]
 //@     invariant forall a, b :: 0 <= a && a < b && b < len(strategyInfos) ==> strategyInfos[a].Nodename != strategyInfos[b].Nodename
 //@     invariant forall n string :: seen(n) ==> exists k :: 0 <= k && k < len(strategyInfos) && strategyInfos[k].Nodename == n
+
+//@ # C20 (rank, thin): doReallocOnNode runs while its caller holds the node's pod lock and the workload's lock, so it must
+//@ # not itself take the node-operation lock; the remap it triggers goes through the worker pool and runs with nothing held
+//@ func (*Calcium) doReallocOnNode
+//@   partial
+//@   safety off
+//@   requires c != nil && allocated(c)
+//@   ensures[C20.rank-realloc-no-nodeop] called(Calcium.RemapResourceAndLog) == 0 && called(Calcium.withNodeOperationLocked) == 0 && called(Calcium.withNodesOperationLocked) == 0
+
+//@ # taker of the node-operation lock; only its call events matter to the rank clauses (body not explored at call sites)
+//@ func (*Calcium) RemapResourceAndLog
+//@   trusted
+
+//@ # the same for doReplaceWorkload, which runs under the old workload's lock
+//@ func (*Calcium) doReplaceWorkload
+//@   partial
+//@   safety off
+//@   requires c != nil && allocated(c)
+//@   ensures[C20.rank-replace-no-nodeop] called(Calcium.RemapResourceAndLog) == 0 && called(Calcium.withNodeOperationLocked) == 0 && called(Calcium.withNodesOperationLocked) == 0
+//@   ensures[C20.rank-replace-no-pod] called(Calcium.withNodePodLocked) == 0 && called(Calcium.withNodesPodLocked) == 0
+//@ # ... and for the follow-up step it hands to utils.Txn (a function literal; it runs under the same workload lock)
+//@ func doReplaceWorkload$2
+//@   partial
+//@   safety off
+//@   ensures[C20.rank-replace-then] called(Calcium.RemapResourceAndLog) == 0 && called(Calcium.withNodeOperationLocked) == 0 && called(Calcium.withNodePodLocked) == 0 && called(Calcium.withNodesPodLocked) == 0
+
+//@ # takers of pod locks; only their call events matter to the rank clauses
+//@ func (*Calcium) withNodePodLocked
+//@   trusted
+//@ func (*Calcium) withNodesPodLocked
+//@   trusted
